@@ -76,8 +76,9 @@ theorem symRun_eq_forwarded (ops : List SOp) :
 /-- "symref elimination", straight-line block with the declaration in the same block: replacing
 every fetch by the operand of the closest preceding update yields exactly the values the symbol
 store would have delivered (and is undefined exactly when a never-written symbol is fetched).
-PARTIAL: symbols used inside nested regions are not covered — there the pass is wrong (known
-finding: `prune_definitions` does not look into nested regions; promotion is an unimplemented TODO). -/
+PARTIAL: symbols used inside nested regions are not covered — the (repaired) pass does not forward
+them either: it raises for a declared symbol that a nested region still uses and leaves undeclared ones
+untouched (promotion of nested uses is an unimplemented TODO of the pass). -/
 theorem desymref_sound_partial (ops : List SOp) : symRun ops [] = forwarded ops [] :=
   symRun_eq_forwarded ops [] [] (fun _ => rfl)
 
